@@ -12,14 +12,17 @@ EXTENDS RxMachine, RxProps, Json
 
 CONSTANTS CaseLo, CaseHi
 
-VARIABLES case, st, H
+VARIABLES case, arc, st, H
 
-vars == <<case, st, H>>
+vars == <<case, arc, st, H>>
 
 C == Cases[case]
 
+(* arc: FALSE = the prediction is for the local form (and, unless the case says that the two forms   *)
+(* may differ, for the thread-safe form too); TRUE = the prediction is for the thread-safe form       *)
 Init == /\ case \in CaseLo..CaseHi
-        /\ st = InitMachine(FALSE, Cases[case].nsubj, Cases[case].nbeh, Cases[case].nhotc, Cases[case].lo, Cases[case].hi)
+        /\ arc \in (IF Cases[case].forms = "split" THEN {FALSE, TRUE} ELSE {FALSE})
+        /\ st = InitMachine(arc, Cases[case].nsubj, Cases[case].nbeh, Cases[case].nhotc, Cases[case].lo, Cases[case].hi)
         /\ H = <<>>
 
 NPre == Len(C.pre)
@@ -44,8 +47,9 @@ Do(s) ==
       leaf == Len(H1) = MaxLen \/ st1.fault # ""
   IN /\ st' = st1
      /\ H' = H1
-     /\ UNCHANGED case
-     /\ leaf => PrintT(ToJson([c |-> case, bad |-> MonRun(Mon0, H1, C), steps |-> H1]))
+     /\ UNCHANGED <<case, arc>>
+     /\ leaf => PrintT(ToJson([c |-> case, form |-> IF C.forms = "split" THEN (IF arc THEN "threads" ELSE "local") ELSE C.forms,
+                                bad |-> MonRun(Mon0, H1, C), steps |-> H1]))
 
 Next == /\ st.fault = ""
         /\ Len(H) < MaxLen
